@@ -16,7 +16,7 @@ stat:  keep frequency of every row over >= 20000 seeded runs of the production p
        1/SF (the only statistical step; tolerance 9 sigma + 12).
 Call sites: agent Shard.sampleBucket (C05) and aggregator calcHostMetricBudgets (C06)."""
 import concurrent.futures, json, os, random
-from vlib import Infra
+from vlib import Infra, load_known
 
 SIG_ONCE = "exactly-once: row neither kept nor discarded exactly once"
 SIG_MUST = "fair-share: row of a partition within its share not kept with factor 1"
@@ -69,19 +69,28 @@ def report(ctx, pid, mismatches, stage):
     """mismatches of a Go driver -> violations of this property (other property's classes are its check's job)"""
     n = 0
     seen = set()
+    known = {k.get("signature") for k in load_known() if k.get("property") == pid and k.get("status") == "known"}
     for mm in mismatches or []:
         sig = mm.get("sig") or stage
         if sig not in OWN[pid] or sig in seen:
             continue
         seen.add(sig)
-        n += 1
-        p = ctx.save("%s_%d.json" % (stage, n), mm)
+        n += sig not in known
+        p = ctx.save("%s_%d.json" % (stage, len(seen)), mm)
         ctx.violation(sig, "%s: %s [%s]" % (stage, str(mm.get("got"))[:300], mm.get("note", "")), p)
     return n
 
 
+def unknown_violation(ctx, pid):
+    known = {k.get("signature") for k in load_known() if k.get("property") == pid and k.get("status") == "known"}
+    return any(sig not in known for sig, _w, _r in ctx.violations)
+
+
 def run(ctx, pid):
     th = ctx.thorough
+    # tools/selftest (development aid: is a mutation of the code caught?) skips the instances that do not
+    # involve the code at all (no export) - the verdict about the code never depends on them
+    selftest = os.environ.get("VERIF_SELFTEST") == "1"
     rnd = random.Random(ctx.seed)
     fams = THOROUGH if th else QUICK
     par = 3
@@ -92,16 +101,21 @@ def run(ctx, pid):
 
     results = {}
     with concurrent.futures.ThreadPoolExecutor(max_workers=par) as ex:
-        for name, res in ex.map(mc, fams + ["legacy", "anysizes"]):
+        if selftest:
+            fams = [f for f in fams if not f.startswith("any")]
+        for name, res in ex.map(mc, fams + ([] if selftest else ["legacy", "anysizes"])):
             results[name] = res
     # sanity: the invariants are live
-    leg = results.pop("legacy")
-    if not leg.violated or not leg.violated.startswith("invariant:"):
+    leg = results.pop("legacy", None)
+    if leg is None:
+        pass
+    elif not leg.violated or not leg.violated.startswith("invariant:"):
         raise Infra("the specification of the pre-fix code no longer violates the properties (vacuous invariants?)")
-    anys = results.pop("anysizes")
-    if anys.violated != "invariant:KeptWithinBudgetAnySizes":
+    anys = results.pop("anysizes", None)
+    if anys is not None and anys.violated != "invariant:KeptWithinBudgetAnySizes":
         raise Infra("kept<=budget without the uniform-size restriction is expected to fail in the model: %s" % anys.violated)
-    ctx.ev.set("sanity_model_counterexamples", {"legacy(LegacyBreak=TRUE)": leg.violated, "anysizes": anys.violated})
+    if leg is not None:
+        ctx.ev.set("sanity_model_counterexamples", {"legacy(LegacyBreak=TRUE)": leg.violated, "anysizes": anys.violated})
     cases = {}
     for name in fams:
         res = results[name]
@@ -128,6 +142,8 @@ def run(ctx, pid):
     for s in res.get("samples", [])[:3]:
         ctx.ev.sample(s)
 
+    if unknown_violation(ctx, pid):
+        return
     # ---- I->S
     take = cases[: (6000 if th else 400)]
     res, out, rc = ctx.go_test("internal/data_model", "TestVerifC05C06Trace", inp=take,
@@ -166,6 +182,8 @@ def run(ctx, pid):
     ctx.ev.add_impl("sampler executions (real selectRandom, floor/ceil RoundF) accepted by SamplerTrace", accepted,
                     steps=res["steps"], random_buckets=res["replayed"] - len(take), from_tlc_inputs=len(take))
 
+    if unknown_violation(ctx, pid):
+        return
     # ---- statistical step (C05 only) and helper contracts
     if pid == "C05":
         nstat = 160 if th else 16
@@ -190,6 +208,8 @@ def run(ctx, pid):
         res = ctx.need_result(res, out, rc, "TestVerifC05C06Stat")
         report(ctx, pid, res.get("mismatches"), "contracts")
 
+    if unknown_violation(ctx, pid):
+        return
     # ---- call sites
     if pid == "C05":
         res, out, rc = ctx.go_test("internal/agent", "TestVerifC05AgentSampleBucket", env={"VERIF_N": 400 if th else 60}, timeout=900)
